@@ -189,7 +189,15 @@ func runC09(p c09Plan, c *stats.Case) error {
 		dists = append(dists, xorDist(self[:], ids[i]))
 		switch k.State {
 		case "stored":
-			_ = store.Put(keys[i], ids[i], []byte("already here"))
+			// (what is stored may be any value, the empty one included: a key is stored or it is not)
+			held := []byte("already here")
+			if k.Len <= 7 {
+				held = fillBytes(k.Len, 0x33)
+				if k.Len == 0 {
+					c.Class("offered-key-already-stored-with-an-empty-value")
+				}
+			}
+			_ = store.Put(keys[i], ids[i], held)
 		case "inflight":
 			b.P.VerifTransferringSet([][]byte{keys[i]})
 		}
